@@ -137,41 +137,62 @@ def run_layout(tree, frontend, prefix):
         live = [n for n in tree if made[n["id"]] == "ok"]      # what the server agreed to create
         refused = sorted("%s:%s" % (n["kind"] + "-in-" + next(m["kind"] for m in tree if m["id"] == n["parent"]), made[n["id"]])
                          for n in tree if made[n["id"]] not in ("ok", "no-parent"))
+        idcache = {}
+
+        def ident_of(href, is_coll):
+            key = (href, is_coll)
+            if key not in idcache:
+                idcache[key] = identify(w, href, is_coll)
+            return idcache[key]
+
+        explicit = gamma.PROPFIND_ALL.replace(b"<D:resourcetype/>", b"<D:resourcetype/><D:add-member/>")
+        # the same listing asked for in the four ways RFC 4918 9.1 offers
+        BODIES = [("prop", explicit),
+                  ("allprop", b'<?xml version="1.0"?><D:propfind xmlns:D="DAV:"><D:allprop/></D:propfind>'),
+                  ("nobody", None),
+                  ("propname", b'<?xml version="1.0"?><D:propfind xmlns:D="DAV:"><D:propname/></D:propfind>')]
         for n in live:
             if not n["coll"]:
                 continue
             for depth in (0, 1):
-                r = w.request("PROPFIND", path_of(tree, n["id"]), [("Depth", str(depth)), ("Content-Type", "text/xml")],
-                              gamma.PROPFIND_ALL.replace(b"<D:resourcetype/>", b"<D:resourcetype/><D:add-member/>"))
+              for (bname, pbody) in BODIES:
+                hdrs = [("Depth", str(depth))] + ([("Content-Type", "text/xml")] if pbody is not None else [])
+                r = w.request("PROPFIND", path_of(tree, n["id"]), hdrs, pbody)
                 got, slash = [], True
                 selfbad = set()
                 if r.status == 207:
                     rs, _ = alpha.parse_multistatus(r.body)
                     for x in rs:
-                        rt = x.prop_ok(DAV + "resourcetype")
-                        is_coll = rt is not None and any(ch.tag == DAV + "collection" for ch in rt)
-                        if is_coll and not (x.href or "").endswith("/"):
-                            slash = False
-                        ident = identify(w, x.href, is_coll)
+                        rt = x.props.get(DAV + "resourcetype")
+                        if bname == "propname" or rt is None:
+                            # no values: whether it is a collection shows in the href (and is checked
+                            # by the other three forms)
+                            is_coll = (x.href or "").endswith("/")
+                        else:
+                            is_coll = rt[0] == 200 and any(ch.tag == DAV + "collection" for ch in rt[1])
+                            if is_coll and not (x.href or "").endswith("/"):
+                                slash = False
+                        ident = ident_of(x.href, is_coll)
                         got.append(ident)
                         # a property whose value refers to the described resource itself (add-member:
                         # where to POST new members, RFC 5995) must address that resource, also
                         # when the resource is described as a member of a Depth 1 listing
-                        am = x.prop_ok(DAV + "add-member")
+                        am = x.prop_ok(DAV + "add-member") if bname != "propname" else None
                         if is_coll and am is not None:
                             for h in am.iter(DAV + "href"):
-                                if identify(w, urllib.parse.urljoin(x.href or "", h.text or ""), True) != ident:
+                                if ident_of(urllib.parse.urljoin(x.href or "", h.text or ""), True) != ident:
                                     selfbad.add("add-member")
                 bad = sorted(selfbad)
-                if depth == 0:
+                if depth == 0 and bname == "prop":
                     bad = sorted(selfbad | {"%s" % p for (p, h, v) in property_hrefs(w, path_of(tree, n["id"])) if v != "ok"})
-                recs.append({"tree": live, "at": n["id"], "depth": depth, "got": got, "slash": slash, "badprops": bad,
-                             "status": r.status, "frontend": frontend, "prefix": prefix.strip("/") or "root"})
+                recs.append({"tree": live, "at": n["id"], "depth": depth, "body": bname, "got": got, "slash": slash,
+                             "badprops": bad, "status": r.status, "frontend": frontend,
+                             "prefix": prefix.strip("/") or "root"})
         # the principal and the home sets: hrefs in their property values
         for target, ident in (("/user/", "principal"), (HOME, "home")):
             bad = sorted({p for (p, h, v) in property_hrefs(w, target) if v != "ok"})
             if bad:
-                recs.append({"tree": live, "at": "R", "depth": 0, "got": ["R"], "slash": True,
+                recs.append({"tree": live, "at": "R", "depth": 0, "body": "prop", "got": ["R"], "slash": True,
                              "badprops": [ident + ":" + b for b in bad], "status": 207,
                              "frontend": frontend, "prefix": prefix.strip("/") or "root"})
         return recs, refused
